@@ -154,7 +154,7 @@ theorem choose_built (prefs : List Pref) (dis : Bool) :
 theorem selection_first_usable (prefs : List Pref) (dis : Bool)
     (hv : ∀ p ∈ prefs, 0 ≤ p.codec ∧ p.codec ≤ 4) :
     (∀ opts, build prefs = .comp opts → choose opts dis = Spec.firstUsable (prefs.map Pref.codec) dis) ∧
-    (build prefs = .noCompressor → Spec.firstUsable (prefs.map Pref.codec) dis = 0 ∨ (prefs.map Pref.codec).head? = some 0) ∧
+    (build prefs = .noCompressor → Spec.firstUsable (prefs.map Pref.codec) dis = 0) ∧
     build prefs ≠ .unknownCodec := by
   have hvalid : (dedup prefs []).any (fun p => p.codec < 0 || p.codec > 4) = false := by
     rw [List.any_eq_false]
@@ -177,7 +177,6 @@ theorem selection_first_usable (prefs : List Pref) (dis : Bool)
           rw [← hc]
           exact choose_built prefs dis
   · intro hb
-    left
     unfold build at hb
     split at hb
     · rename_i he
